@@ -34,7 +34,7 @@ def run(chk, tier, replay=None):
         i, case = ic
         prefix = os.path.join(chk.dir, "L%03d" % i)
         res = enc.run_case("plain", case, prefix, timeout=max(600, int(case["frames"]) * 2))
-        if res.timed_out:
+        if res.timed_out and not (res.res and res.res.get("api_error") == 1):
             return case, [("C22|encode-hang|%s" % common.hang_sig(case), "long stream did not finish: %s" % common.log_tail(prefix))], 0
         v1 = common.judge_recon_vs_refdec(chk, "C22", case, res, prefix)
         out = []
